@@ -298,3 +298,22 @@ Example C05_date_and_duration_text_example :
   to_display (VDur (-1500000000)) = Ok (lit "TimeDelta { secs: -2, nanos: 500000000 }").
 Proof. vm_compute. split; reflexivity. Qed.
 Print Assumptions C05_date_and_duration_text_example.
+
+(** *** the text of a float as the string functions see it (F64Display.v: Rust's `{}` for f64 - the shortest digits that
+    read back, free-format algorithm on exact integers, positional layout; compared byte for byte with the binary on
+    every run).  The digit generator never runs out of fuel; the text of a finite double is an optional `-`, digits
+    and at most one `.` - no exponent form.  That the text READS BACK as the same double is checked per instance
+    ([hard_checks], and on every run against the binary with Python's float()); it is not a theorem here. *)
+From AG Require Import F64Display F64Display_proofs.
+
+Theorem C05_float_text_digits_always_found : forall m e, shortest m e <> None.
+Proof. exact shortest_some. Qed.
+Print Assumptions C05_float_text_digits_always_found.
+
+Theorem C05_float_text_shape_partial : forall x,
+  f_is_finite x = true -> digits_in_range x = true ->
+  let body := snd (strip_minus (f64_display x)) in
+  body <> [] /\ forallb plain_char body = true /\ (dots body <= 1)%nat /\
+  fst (strip_minus (f64_display x)) = f_sign x.
+Proof. exact f64_display_shape. Qed.
+Print Assumptions C05_float_text_shape_partial.
